@@ -31,11 +31,15 @@ class WorkflowContext:
     @property
     def deterministic(self) -> DeterministicExecutor:
         """Get the deterministic executor for this workflow context."""
-        if self._deterministic is None:
-            self._deterministic = DeterministicExecutor(
-                self.task.invocation.workflow, self.task.app
-            )
-        return self._deterministic
+        # One executor per execution: the Task (and this context) lives as long as the
+        # process, but sequence counters must restart with every execution of the body and
+        # the workflow identity is that of the invocation being executed right now.
+        invocation = self.task.invocation
+        executor = getattr(invocation, "_deterministic_executor", None)
+        if executor is None:
+            executor = DeterministicExecutor(invocation.workflow, self.task.app)
+            invocation._deterministic_executor = executor  # type: ignore[attr-defined]
+        return executor
 
     @property
     def app(self) -> Pynenc:
